@@ -109,6 +109,8 @@ type request struct {
 	token   string
 	by      string
 	tid     string
+	// nested: served from inside this request's handler, on the same goroutine
+	nested *request
 }
 
 type simResponse struct {
@@ -138,15 +140,16 @@ func (r *simResponse) Write(p []byte) (int, error) {
 }
 
 type world struct {
-	prop   string
-	viol   []kit.Violation
-	cfg    map[string]any
-	reqs   []*request
-	routes []route
-	byHdr  map[string]*request
-	sink   *logSink
-	hist   []string
-	lkind  int
+	prop    string
+	viol    []kit.Violation
+	cfg     map[string]any
+	reqs    []*request
+	routes  []route
+	byHdr   map[string]*request
+	sink    *logSink
+	hist    []string
+	lkind   int
+	liveMux *httpd.Mux
 }
 
 func (w *world) violate(prop, class, detail string) {
@@ -243,6 +246,7 @@ func (w *world) buildMux(routes []route, table map[string]*request) *httpd.Mux {
 	handler := func(store *httpd.Store) {
 		r := w.reqOf(store, table)
 		observe(store, r.obs)
+		w.serveNested(mux, store, r, table)
 		switch r.beh.panicAt {
 		case 1:
 			panic(harnessPanic{r.token})
@@ -349,6 +353,7 @@ func (w *world) mainC05() {
 		w.routes = append(w.routes, take())
 	}
 	mux := w.buildMux(w.routes, w.byHdr)
+	w.liveMux = mux
 	for b := 0; b < batches; b++ {
 		var wg simrt.WaitGroup
 		wg.Add(clients)
@@ -359,6 +364,10 @@ func (w *world) mainC05() {
 			for i := 0; i < n; i++ {
 				m, p := w.genPath()
 				r := w.newRequest(m, p, name)
+				if ch("req.nested", 6) == 0 {
+					nm, np := w.genPath()
+					r.nested = w.newRequest(nm, np, name+"-nested")
+				}
 				switch ch("req.panics", 8) {
 				case 0:
 					r.beh.panicAt = 1
@@ -455,10 +464,35 @@ func (w *world) mainC05() {
 	}
 }
 
+// serveNested: a handler that serves another request through the same Mux
+// before it goes on (an internal redirect). The outer request must be
+// undisturbed by it: its observations are taken again afterwards.
+func (w *world) serveNested(mux *httpd.Mux, store *httpd.Store, r *request, table map[string]*request) {
+	if r.nested == nil || mux == nil {
+		return
+	}
+	if _, known := table[strconv.Itoa(r.nested.id)]; !known {
+		return // reference run of the outer request alone
+	}
+	simrt.Probe("nested_request")
+	w.serve(mux, r.nested)
+	again := &obs{}
+	observe(store, again)
+	a, _ := json.Marshal(strip(r.obs))
+	again.Handlers = r.obs.Handlers
+	again.StatusEntry = r.obs.StatusEntry
+	b, _ := json.Marshal(strip(again))
+	if string(a) != string(b) {
+		w.violate("C05", "disturbed-by-nested-request", fmt.Sprintf("%s %s: before the nested request %s, after it %s", r.method, r.path, a, b))
+	}
+	r.obs.IDs = append(r.obs.IDs, again.IDs...)
+}
+
 func (w *world) buildMuxHandler(table map[string]*request) httpd.HandlerFunc {
 	return func(store *httpd.Store) {
 		r := w.reqOf(store, table)
 		observe(store, r.obs)
+		w.serveNested(w.liveMux, store, r, table)
 		if r.beh.panicAt == 1 {
 			panic(harnessPanic{r.token})
 		}
